@@ -7,7 +7,7 @@
    Not shown here (correspondence run only): that the serialisers print these values faithfully,
    JSON / SARIF well-formedness, byte identity of repeated real runs. *)
 From Coq Require Import NArith List Bool Permutation Sorted.
-From SG Require Import Report.Summary Report.Stats Report.Escape Report.Proofs_C20.
+From SG Require Import Report.Summary Report.Stats Report.Escape Report.Uri Report.Proofs_C20.
 Import ListNotations.
 Open Scope N_scope.
 
@@ -189,6 +189,32 @@ Print Assumptions C20_html_escape_injective.
 Theorem C20_html_unescape_inverts : forall s, html_unescape (html_escape s) = s.
 Proof. exact unescape_escape. Qed.
 Print Assumptions C20_html_unescape_inverts.
+
+(* ---------------------------------------------------------------- SARIF uri (D37 repaired) *)
+
+(* percent-decoding the uri gives back exactly the bytes of the display path the other formats
+   print: the SARIF view names the same file *)
+Theorem C20_uri_roundtrip : forall p : list N, Forall (fun b => b < 256) p -> uri_decode (uri_encode p) = p.
+Proof. exact uri_roundtrip. Qed.
+Print Assumptions C20_uri_roundtrip.
+
+(* the uri consists of unreserved characters, slashes and complete upper-case escapes only *)
+Theorem C20_uri_wellformed : forall p : list N, Forall (fun b => b < 256) p -> uri_ok (uri_encode p) = true.
+Proof. exact uri_encode_ok. Qed.
+Print Assumptions C20_uri_wellformed.
+
+Theorem C20_uri_injective : forall p q, Forall (fun b => b < 256) p -> Forall (fun b => b < 256) q ->
+  uri_encode p = uri_encode q -> p = q.
+Proof. exact uri_encode_injective. Qed.
+Print Assumptions C20_uri_injective.
+
+(* the raw path is NOT a faithful uri: the old behaviour on the D37 witness (per%41cent) *)
+Example C20_raw_path_is_not_a_uri :
+  uri_decode [112;101;114;37;52;49;99] = [112;101;114;65;99] /\
+  uri_encode [112;101;114;37;52;49;99] = [112;101;114;37;50;53;52;49;99] /\
+  uri_ok [97;32;98] = false.
+Proof. vm_compute. repeat split. Qed.
+Print Assumptions C20_raw_path_is_not_a_uri.
 
 (* ---------------------------------------------------------------- presentation flags *)
 
